@@ -4,7 +4,8 @@
 EXTENDS Quasi, FiniteSets
 
 B == [x |-> <<"int", 5>>, lst |-> <<"list", << <<"int", 1>>, <<"int", 2>> >> >>,
-      one |-> <<"list", << <<"int", 9>> >> >>, emp |-> Nil, arr |-> <<"arr", << <<"int", 7>> >> >>]
+      one |-> <<"list", << <<"int", 9>> >> >>, emp |-> Nil, arr |-> <<"arr", << <<"int", 7>> >> >>,
+      pr |-> <<"list", << <<"int", 7>>, <<"sym", "j">>, <<"int", 8>> >> >>]
 
 Leaves == { <<"atom", <<"int", 1>>>>, <<"atom", <<"sym", "a">>>>, <<"unq", "x">>, <<"unq", "lst">>, <<"unqsum", 1, 2>>,
             <<"splice", "lst">>, <<"splice", "one">>, <<"splice", "emp">>, <<"splice", "x">>, <<"splice", "arr">> }
@@ -13,8 +14,29 @@ D1 == {<<k, s>> : k \in {"list", "arr"}, s \in Seqs(Leaves)}
 Small == {<<k, s>> : k \in {"list", "arr"}, s \in {<<a>> : a \in Leaves} \cup {<<a, b>> : a \in Leaves, b \in {<<"unq", "x">>, <<"splice", "one">>}}}
 D2 == {<<k, s>> : k \in {"list", "arr", "hashform"}, s \in {<<a, b>> : a \in Small \cup Leaves, b \in Small}}
 
+(* unquoted expressions: without instructions / nil-valued, valued, without a value; reader sugar; negative literals *)
+NilX   == <<"unqx", <<"begin", <<>>>>>>
+NilX2  == <<"unqx", <<"scope", << <<"begin", <<>>>> >>>>>>
+BadX   == <<"unqx", <<"bad", "let">>>>
+BadIn  == <<"unqx", <<"begin", << <<"lit", <<"int", 1>>>>, <<"bad", "let">> >>>>>>
+XLeaves == { NilX, NilX2, BadX, BadIn,
+             <<"unqx", <<"begin", << <<"lit", <<"int", 1>>>>, <<"var", "x">> >>>>>>,
+             <<"splicex", <<"begin", <<>>>>>>,
+             <<"splicex", <<"mklist", << <<"lit", <<"int", -5>>>>, <<"qt", <<"sym", "b">>>> >>>>>>,
+             <<"sugar", "quote", <<"atom", <<"int", -5>>>>>>,
+             <<"atom", <<"sym", "a">>>> }
+D3 == {<<k, s>> : k \in {"list", "arr"}, s \in Seqs(XLeaves)}
+      \cup {<<"list", <<a, <<k, <<b>>>>, <<"atom", <<"int", 1>>>> >> >> : k \in {"list", "arr"}, a \in XLeaves, b \in XLeaves}
+
+(* hash objects: keys are atoms, values are templates; a splice in a value position changes the pairing *)
+HVals == { <<"atom", <<"int", 1>>>>, <<"unq", "x">>, NilX, BadX, <<"splice", "one">>, <<"splice", "emp">>,
+           <<"splice", "lst">>, <<"splice", "pr">>, <<"list", << <<"atom", <<"sym", "b">>>>, <<"splice", "lst">> >> >> }
+HKeys == { <<"atom", <<"sym", "k">>>>, <<"atom", <<"sym", "j">>>>, <<"atom", <<"int", 3>>>> }
+D4 == {<<"hashobj", s>> : s \in {<<>>} \cup {<<k, v>> : k \in HKeys, v \in HVals}
+                                 \cup {<<k1, v1, k2, v2>> : k1 \in HKeys, k2 \in HKeys, v1 \in HVals, v2 \in HVals}}
+
 VARIABLE t
-Init == t \in D1 \cup D2
+Init == t \in D1 \cup D2 \cup D3 \cup D4
 Next == UNCHANGED t
 
 Replace(s, from, to) == [i \in 1..Len(s) |-> IF s[i] = from THEN to ELSE s[i]]
@@ -23,10 +45,31 @@ RemoveAll(s, x) == LET idx == {i \in 1..Len(s) : s[i] # x}
                        Build(i) == IF i > Len(s) THEN <<>> ELSE (IF i \in idx THEN <<s[i]>> ELSE <<>>) \o Build(i + 1)
                    IN Build(1)
 
+Seqish == t[1] \in {"list", "arr", "hashform"}
 LiteralLaw   == Literal(t) => Subst(t, B) = AsDatum(t)
 SingletonLaw == Subst(<<t[1], Replace(t[2], <<"splice", "one">>, <<"atom", <<"int", 9>>>>)>>, B) = Subst(t, B)
 EmptyLaw     == Subst(<<t[1], RemoveAll(t[2], <<"splice", "emp">>)>>, B) = Subst(t, B)
 ErrLaw       == (\E i \in 1..Len(t[2]) : t[2][i] \in {<<"splice", "x">>, <<"splice", "arr">>}) => Subst(t, B) = Err
 LengthLaw    == LET v == Subst(t, B) IN
-                (t[1] = "arr" /\ v # Err /\ \A i \in 1..Len(t[2]) : t[2][i][1] # "splice") => Len(v[2]) = Len(t[2])
+                (t[1] = "arr" /\ v # Err /\ \A i \in 1..Len(t[2]) : t[2][i][1] \notin {"splice", "splicex"}) => Len(v[2]) = Len(t[2])
+(* an unquoted expression whose value is nil stands for one element, nil: it is never dropped *)
+NilLaw       == /\ Subst(<<t[1], Replace(t[2], NilX, <<"atom", Nil>>)>>, B) = Subst(t, B)
+                /\ Subst(<<t[1], Replace(t[2], NilX2, <<"atom", Nil>>)>>, B) = Subst(t, B)
+(* an unquoted expression without a value leaves the template without a value, at any depth *)
+RECURSIVE HasBad(_)
+HasBad(u) == CASE u \in {BadX, BadIn, <<"splicex", <<"bad", "let">>>>} -> TRUE
+               [] u[1] \in {"list", "arr", "hashform", "hashobj"} -> \E i \in 1..Len(u[2]) : HasBad(u[2][i])
+               [] OTHER -> FALSE
+BadLaw       == HasBad(t) => Subst(t, B) = Err
+(* a hash object template is the textual hash form of the same elements: same sequence, built into a hash *)
+RECURSIVE Flat(_, _)
+Flat(ps, i) == IF i > Len(ps) THEN <<>> ELSE <<ps[i][1], ps[i][2]>> \o Flat(ps, i + 1)
+DistinctKeys(s) == \A i, j \in 1..Len(s) : (i % 2 = 1 /\ j % 2 = 1 /\ i # j) => ~SameKey(s[i], s[j])
+HashLaw      == t[1] = "hashobj" =>
+                LET f == Subst(<<"hashform", t[2]>>, B)
+                    h == Subst(t, B) IN
+                /\ f = Err => h = Err
+                /\ h # Err => (f # Err /\ Len(h[3]) * 2 <= Len(f[2]) - 1)
+                /\ (h # Err /\ DistinctKeys(Tail(f[2]))) => Flat(h[3], 1) = Tail(f[2])
+                /\ (f # Err /\ h = Err) => (Len(f[2]) % 2 = 0 \/ \E i \in 2..Len(f[2]) : i % 2 = 0 /\ f[2][i][1] \notin KeyKinds)
 =============================================================================
